@@ -27,6 +27,20 @@ def generate(tier, seed):
         pkg['flux_unit'] = ['mJy', 'Jy', 'mJy', 'erg / (cm2 s)', 'mJy', 'erg / s'][k % 6]          # the unit the SED files / the cube store their fluxes in
         if k % 4 == 3 and len(pkg['names']) >= 2:
             pkgcase.own_grids(rng, pkg)       # per-file package whose SEDs are not all on one grid (no cube form exists)
+        elif k % 5 == 2:
+            # the cube in single precision with stored numbers around 1e-27 (the size of cgs flux densities; unit YJy = 1e24 Jy so that
+            # every stored number is a single-precision number): products of such numbers underflow in single precision
+            import numpy as np
+            for sd in pkg['seds'].values():
+                sd['flux'] = [[float(np.float32(x)) for x in row] for row in sd['flux']]
+                sd['err'] = [[float(np.float32(x)) for x in row] for row in sd['err']]
+            pkg['flux_unit'], pkg['flux_pow2'], pkg['cube_dtype'] = 'YJy', -90, 'float32'
+        if k % 4 == 2 and len(pkg['names']) >= 2:
+            # the cube lists the models in another order than the parameter table (the convolved files then follow the cube)
+            cn = list(pkg['par_order'])
+            while cn == pkg['par_order']:
+                rng.shuffle(cn)
+            pkg['cube_names'] = cn
         nb = len(pkg['filters'])
         src = fitcase.gen_source(rng, nb, flags=[1] * nb if nb < 3 else None)
         ext = fitcase.gen_ext(rng, [f['wav'] for f in pkg['filters']])
@@ -87,7 +101,7 @@ def model_requests(case):
     pkg = case['pkg']
     reqs = []
     files = [[pkgcase.key(pkg['fnames'][n]), pkgcase.sedm(pkg, n)] for n in pkg['names']]
-    cube = [pkgcase.sedm(pkg, n, order=pkg['cube_order']) for n in pkg['par_order']]
+    cube = [pkgcase.sedm(pkg, n, order=pkg['cube_order']) for n in pkg.get('cube_names', pkg['par_order'])]
     par = [pkgcase.key(n) for n in pkg['par_order']]
     for k, f in enumerate(pkg['filters']):
         reqs.append(('conv_dir1', [pkgcase.filt_pts(pkg, k), f['normalize'], files, par]))
@@ -154,17 +168,19 @@ def judge(case, im, mo):
         v1, v2 = im['v1'][f['name']], im['v2'][f['name']]
         disagree += _cmp_table('per-file format, filter %s' % f['name'], v1, rows1, pkg, tol, pkg['par_order'])
         if not pkg.get('v1only'):
-            disagree += _cmp_table('cube format, filter %s' % f['name'], v2, rows2, pkg, tol, pkg['par_order'])
+            disagree += _cmp_table('cube format, filter %s' % f['name'], v2, rows2, pkg, tol, pkg.get('cube_names', pkg['par_order']))
         # ---- property clauses on the implementation's own files
         for tag, t in (('per-file', v1), ('cube', v2))[:1 if pkg.get('v1only') else 2]:
-            if t['names'] != pkg['par_order']:
-                fail.append('order: %s format rows %r do not follow the parameter-table order %r' % (tag, t['names'], pkg['par_order']))
+            want_order = pkg['par_order'] if tag == 'per-file' else pkg.get('cube_names', pkg['par_order'])
+            if t['names'] != want_order:
+                fail.append('order: %s format rows %r do not follow the %s order %r' % (tag, t['names'], 'parameter-table' if tag == 'per-file' else 'cube', want_order))
             if t['filtwav'] is None or abs(t['filtwav'] - f['wav']) > 1e-9 * f['wav']:
                 fail.append('meta: %s format FILTWAV %r, filter %s has %r' % (tag, t['filtwav'], f['name'], f['wav']))
             placeholder = t['apertures'] is not None and len(t['apertures']) == 1 and t['apertures'][0] < 1e-20   # SED.write stores 1e-30 cm for 'no apertures'
             if (pkg['aps'] is None and not (t['apertures'] is None or placeholder)) or (pkg['aps'] is not None and (t['apertures'] is None or len(t['apertures']) != len(pkg['aps']) or any(abs(a - b) > 1e-9 * b for a, b in zip(t['apertures'], pkg['aps'])))):
                 fail.append('meta: %s format apertures %r, SEDs have %r' % (tag, t['apertures'], pkg['aps']))
-        if v1['names'] == pkg['par_order'] == v2['names']:
+        if v1['names'] == pkg['par_order'] and v2['names'] == pkg.get('cube_names', pkg['par_order']):
+            i2 = {n: j for j, n in enumerate(v2['names'])}
             # normalised response as the implementation uses it: recompute exactly
             import c06
             raw = sorted((F(a), F(b)) for a, b in zip(f['nu'], f['resp']))
@@ -173,17 +189,18 @@ def judge(case, im, mo):
             for i, n in enumerate(pkg['par_order']):
                 wf, wv = _exact_row(pkg, k, n, norm)
                 for tag, t in (('per-file', v1), ('cube', v2))[:1 if pkg.get('v1only') else 2]:
+                    ii = i if tag == 'per-file' else i2[n]
                     for a in range(len(wf)):
-                        if abs(F(t['flux'][i][a]) - wf[a]) > tol:
-                            fail.append('rows: %s format, row %s aperture %d holds flux %r; SED %s convolved with %s gives %r' % (tag, n, a, t['flux'][i][a], n, f['name'], float(wf[a])))
+                        if abs(F(t['flux'][ii][a]) - wf[a]) > tol:
+                            fail.append('rows: %s format, row %s aperture %d holds flux %r; SED %s convolved with %s gives %r' % (tag, n, a, t['flux'][ii][a], n, f['name'], float(wf[a])))
                             break
-                        e = F(t['error'][i][a])
+                        e = F(t['error'][ii][a])
                         if abs(e * e - wv[a]) > tol * tol + 2 * tol * abs(e):
-                            fail.append('rows: %s format, row %s aperture %d holds error %r; errors of SED %s in quadrature give %r' % (tag, n, a, t['error'][i][a], n, math.sqrt(float(wv[a]))))
+                            fail.append('rows: %s format, row %s aperture %d holds error %r; errors of SED %s in quadrature give %r' % (tag, n, a, t['error'][ii][a], n, math.sqrt(float(wv[a]))))
                             break
                 for a in range(len(wf)):
-                    if abs(v1['flux'][i][a] - v2['flux'][i][a]) > float(tol) or abs(v1['error'][i][a] - v2['error'][i][a]) > float(tol):
-                        fail.append('formats: %s aperture %d: per-file (%r, %r) vs cube (%r, %r)' % (n, a, v1['flux'][i][a], v1['error'][i][a], v2['flux'][i][a], v2['error'][i][a]))
+                    if abs(v1['flux'][i][a] - v2['flux'][i2[n]][a]) > float(tol) or abs(v1['error'][i][a] - v2['error'][i2[n]][a]) > float(tol):
+                        fail.append('formats: %s aperture %d: per-file (%r, %r) vs cube (%r, %r)' % (n, a, v1['flux'][i][a], v1['error'][i][a], v2['flux'][i2[n]][a], v2['error'][i2[n]][a]))
                         break
     # fits from either format agree
     fits = [im['fit_v1'], im['fit_v2_True'], im['fit_v2_False']]
